@@ -80,3 +80,25 @@ UNITS.append(f1('__gmpf_cmp_ui', 'cmp_ui', 'mpir_ui v;', ', v', [(r'if \(uexp > 
 for u in UNITS:
     if u['name'] == 'mpf_cmp_uv':
         u['tier'] = 'thorough'          # mpf_cmp(x,x): 340 s; the distinct-operand run (in the quick tier) already takes 7 minutes
+
+# ------------------------------------------------------------------ mpf_set_prec: precision change keeps the most significant limbs, block resized exactly
+UNITS.append(dict(name='mpf_set_prec', props=['C13', 'C04', 'C15'], source='mpf/set_prc.c', contracts=CT,
+    contract_text='''#define V_NEWPREC(b) ((long) ((((b) > 53 ? (b) : 53) + 2 * 64 - 1) / 64))
+void __gmpf_set_prec (mpf_ptr x, mp_bitcnt_t bits)
+__CPROVER_requires (V_WFF (x) && bits <= 64 * (mp_bitcnt_t) (V_ZMAX - 4) && V_GHOSTS_OK)
+__CPROVER_assigns (*x, __CPROVER_object_whole (V_PTR (x)))
+__CPROVER_frees (V_PTR (x))
+__CPROVER_ensures (V_PREC (x) == V_NEWPREC (bits) && V_WFF_AT (x, gk) && V_EXP (x) == __CPROVER_old (V_EXP (x)));
+''', enforce=['__gmpf_set_prec'],
+    functions={'__gmpf_set_prec': dict(loops={0: copy_loop('gk', 'incr')})},
+    harness='#include "/verif/contracts/alloc_stubs.h"\nvoid h_mpf_set_prec (void) {\n  V_INSTALL_ALLOCATOR ();\n' + mpf_obj('F') + '''  mp_bitcnt_t bits = nondet_ulong ();
+  gk = nondet_long (); gj = nondet_long (); gh = nondet_long ();
+  __CPROVER_assume (V_GHOSTS_OK && V_WFF (&F) && bits <= 64 * (mp_bitcnt_t) (V_ZMAX - 4));
+  long s = F._mp_size, n = V_ABS (s), np = V_NEWPREC (bits) + 1, rn = n < np ? n : np;
+  mp_limb_t Fk = gk < rn ? F._mp_d[gk + (n - rn)] : 0;
+  __gmpf_set_prec (&F, bits);
+  __CPROVER_assert ((long) F._mp_size == (s >= 0 ? rn : -rn), "[C13] size = min(|size|, new prec + 1), sign kept");
+  __CPROVER_assert (gk < rn ==> F._mp_d[gk] == Fk, "[C13] the most significant limbs are retained exactly (value unchanged when it fits the new precision)");
+  free (F._mp_d);
+}''', cbmc_flags=['--memory-leak-check'], timeout=900,
+    selftest=[('__gmpf_set_prec', r'old_prec\+1', 'old_prec'), ('__gmpf_set_prec', r'xp \+ size - new_prec_plus1', 'xp')]))
